@@ -94,7 +94,17 @@ func (d *dec) fractalHeap(addr uint64) *fheap {
 		d.fail("%s at 0x%x: maximum heap size of %d bits not in 1..64", what, a, h.maxHeapBits)
 	}
 	if log2floor(h.maxDirect) > uint(h.maxHeapBits) {
-		d.fail("%s at 0x%x: maximum direct block size %d exceeds the heap address space of %d bits", what, a, h.maxDirect, h.maxHeapBits)
+		d.deviate("fheap-block-exceeds-heap-space", "%s at 0x%x: maximum direct block size %d exceeds the heap address space of %d bits", what, a, h.maxDirect, h.maxHeapBits)
+	}
+	if h.hugeBT == 0 && d.base == 0 {
+		d.deviate("fheap-addr-zero-for-undefined", "%s at 0x%x: v2 B-tree address of huge objects is 0 (the superblock); absent structures have the undefined address", what, a)
+		h.hugeBT = UndefAddr
+	}
+	if h.curRows == 0 && h.rootAddr != UndefAddr && h.manIter < h.startSize && h.freeSpace+h.manIter == h.startSize {
+		// library accounting: free space = block size - object bytes (block header ignored), allocation
+		// iterator = object bytes; object offsets count from the first payload byte of the root direct block
+		d.deviate("fheap-offsets-exclude-block-header", "%s at 0x%x: free space %d + allocation offset %d = block size %d: the direct block's %d-byte header is not part of the heap's address space (managed object offsets count from the first payload byte)", what, a, h.freeSpace, h.manIter, h.startSize, 5+d.O+(h.maxHeapBits+7)/8)
+		h.dataRelative = true
 	}
 	if h.idLen < 3 || h.idLen > 4096 {
 		d.fail("%s at 0x%x: heap ID length %d is implausible", what, a, h.idLen)
@@ -226,8 +236,8 @@ func (d *dec) fhIndirect(h *fheap, addr, off uint64, nrows int, depth int) {
 // object returns the bytes of the heap object named by id and the absolute file offset of its first byte (0 for tiny objects).
 func (h *fheap) object(d *dec, id []byte, what string) ([]byte, uint64) {
 	ha := d.abs(h.addr)
-	if len(id) < h.idLen {
-		d.fail("%s: heap ID of %d bytes, heap 0x%x uses %d-byte IDs", what, len(id), ha, h.idLen)
+	if len(id) == 0 {
+		d.fail("%s: empty heap ID (heap 0x%x)", what, ha)
 	}
 	if id[0]&0xC0 != 0 {
 		d.fail("%s: heap ID version %d, expected 0 (heap 0x%x)", what, id[0]>>6, ha)
@@ -260,11 +270,6 @@ func (h *fheap) object(d *dec, id []byte, what string) ([]byte, uint64) {
 			if off >= bl.off && off < bl.off+bl.size {
 				p := off - bl.off
 				if p < uint64(h.blockHdr) {
-					if len(h.blocks) == 1 && bl.off == 0 {
-						d.deviate("fheap-offsets-exclude-block-header", "%s: managed object offset %d lies inside the %d-byte header of the direct block at 0x%x (heap 0x%x); offsets must count from the start of the block, header included", what, off, h.blockHdr, d.abs(bl.addr), ha)
-						h.dataRelative = true
-						return h.object(d, id, what)
-					}
 					d.fail("%s: managed object offset %d lies inside the %d-byte header of the direct block at 0x%x (heap 0x%x)", what, off, h.blockHdr, d.abs(bl.addr), ha)
 				}
 				if p+ln > bl.size {
